@@ -17,10 +17,11 @@ class Ticket:
         Ticket.issued += 1
         self.label = label
         self.number = Ticket.issued
-        if Ticket.issued == 1:
-            # only the very first ticket of a process has this field: an assertion on it cannot even be
-            # evaluated on a later execution (it errors), while the one on `number` merely fails
-            self.first_of_process = True
+        if Ticket.issued % 3 == 1:
+            # every third ticket of a process has this field: when the trace run saw it, an assertion on it
+            # cannot even be evaluated in the next two executions (it errors), while the one on `number`
+            # merely fails
+            self.odd_one = True
 
     def describe(self) -> str:
         return f"{self.label}#{len(self.label)}"
